@@ -32,7 +32,8 @@ ASSUMPTIONS = [
 MODES = {'list': ['-l'], 'all': ['-a'], 'count': ['-n'], 'plid': ['--plid', '0x50000001'], 'src': ['--src', 'BD8D'],
          'json': ['-j'], 'hexlist': ['-l', '-x'], 'hexall': ['-a', '-x'], 'listE': ['-l', '-E'], 'allrev': ['-a', '-r'],
          'srcex': ['--src-exclude', '<exclude>'], 'bmcid': ['--bmc-id', '<bmc>'],
-         'jsonhere': ['-j']}        # without -o: the results are written next to the inputs
+         'jsonhere': ['-j'],        # without -o: the results are written next to the inputs
+         'countE': ['-n', '-E'], 'allE': ['-a', '-E', '-x']}     # -E selects every PEL - every PEL that IS one
 
 
 def model_checks(tier):
@@ -67,7 +68,7 @@ def _run(d, out_dir, mode):
                     before[fn] = f.read()
     res = seams.run_cli(argv)
     out = res['out'] or ''
-    if mode in ('hexlist', 'hexall'):
+    if mode in ('hexlist', 'hexall', 'allE'):
         wf = dirrun.hex_blocks(out) is not None
     elif mode in ('json', 'jsonhere'):
         wf = out.strip() == ''
@@ -97,14 +98,14 @@ def _shows_something(r, mode):
     if r['exit'] != 0:
         return False            # a failing run shows nothing decodable; the failure itself is judged (ExitZero)
     t = r['text'].strip()
-    if mode == 'count':
+    if mode in ('count', 'countE'):
         try:
             return json.loads(t)['Number of PELs found'] != 0
         except Exception:
             return True
     if mode in ('json', 'jsonhere'):
         return bool(r['files'])
-    if mode in ('hexlist', 'hexall'):
+    if mode in ('hexlist', 'hexall', 'allE'):
         return t != ''
     if mode == 'bmcid':
         return t != 'PEL not found'
@@ -185,7 +186,11 @@ def run_case(case):
                                  shows=True, sample_out=a['text'][:200]))
             if not dec:
                 use.append((nm, data))
-            jrec.append(dict(kind=kind, decodable_alone=False if not dec else False, used=not dec))
+            # whether a damaged file is still something a mode can show is established by running the mode on it alone -
+            # except where the format itself says it is no PEL (one of the two mandatory headers is missing or cut)
+            # (--bmc-id goes by the Private Header alone and prints nothing for such a file: not judged here)
+            jrec.append(dict(kind=kind, decodable_alone=dec and mode != 'bmcid' and kind in ('badPHid', 'badUHid', 'truncInHeaders', 'empty'),
+                             used=not dec))
         dirrun.write_dir(dj, files + use + nested)
         w = _run(dj, outd, mode)
         names = set(nm for nm, _ in files)
